@@ -25,11 +25,7 @@ ASSUMPTIONS = [
 
 
 def proof_targets(tier):
-  t = [('heapdict', None, True)]
-  from mmverif import prove
-  if 'tbrmatchedmarkets' in prove.SIDECARS:
-    t.append(('tbrmatchedmarkets', ['TBRMatchedMarkets.search_results'], False))
-  return t
+  return [('heapdict', None, True)]
 
 
 def monitor(tier, seed):
